@@ -58,6 +58,15 @@ def run(prop, tier):
         allfiles = paths + c12
         lst = os.path.join(wd, "all.txt")
         open(lst, "w").write("\n".join(allfiles) + "\n")
+        import damage
+        dspecs = []
+        for sp in [p for p in paths if os.path.getsize(p) < 6000][:6]:
+            ss = damage.specs_for(sp, open(sp, "rb").read(), C.seed(), quick=True)
+            ss = [x for k, x in ss if k.startswith("field")]
+            dspecs += ss[(C.seed() % 7)::(7 if q else 1)]
+        dspecs = dspecs[:400 if q else 6000]
+        dlst = os.path.join(wd, "damage.txt")
+        open(dlst, "w").write("\n".join(dspecs) + "\n")
         hargs = ["--profile", "c01", "--maxops", "30", "--dump-final", "--maxdesc", "255"]
         statuses = collections.Counter()
         outs = {}
@@ -69,6 +78,7 @@ def run(prop, tier):
             C.run_driver(exes[i], "hist", nh, o1, args=hargs, workers=nper)
             C.run_driver(exes[i], "loaddump", len(allfiles), o2, args=["--list", lst, "--resave", "1"], workers=nper)
             C.run_driver(exes[i], "fpprobe", nfp, os.path.join(wd, "p_" + names[i]), workers=nper)
+            C.run_driver(exes[i], "damage", len(dspecs), os.path.join(wd, "d_" + names[i]), args=["--list", dlst, "--timeout", "60"], workers=nper, chunk=100)
             return o1, o2
         with ThreadPoolExecutor(4) as ex:
             res = list(ex.map(runcfg, range(len(cfgs))))
@@ -120,7 +130,18 @@ def run(prop, tier):
                     first = next(("%s  <>  %s" % (a[:200], b[:200]) for a, b in zip(ref, cur) if a != b), "log lengths differ")
                     viols.append(dict(prop="C19", key="config_dependent/float_environment_probe", detail="probe %d: %s vs %s: %s" % (i, base, n, first), case=i))
                     break
-        cov = dict(evaluations=(nh + len(allfiles) + nfp) * len(cfgs), distinct_nontrivial=nh + len(allfiles) + nfp,
+        for i in range(len(dspecs)):
+            def outcome(n):
+                l = [x for x in filtered_log(os.path.join(wd, "d_" + n, "case_%d.log" % i)) if x.startswith(("RES", "END", "EV"))]
+                return [" ".join(x.split()[:4]) if x.startswith("RES") else x for x in l]      # ok / threw <class>, without the step counters
+            ref = outcome(base)
+            compared["damaged_input"] += 1
+            for n in names[1:]:
+                cur = outcome(n)
+                if cur != ref:
+                    viols.append(dict(prop="C19", key="config_dependent/damaged_input_outcome", detail="%s: %s gives %s, %s gives %s" % (dspecs[i].split("|", 1)[1], base, ref[-1:], n, cur[-1:]), case=i))
+                    break
+        cov = dict(evaluations=(nh + len(allfiles) + nfp + len(dspecs)) * len(cfgs), distinct_nontrivial=nh + len(allfiles) + nfp + len(set(dspecs)),
                    rule="each seeded API history (with final save) and each corpus / pattern file (load, snapshot, re-save) is executed by the same driver linked against every configuration of the library built by the repository's CMake; filtered event logs (operations, outcomes incl. exception classes, monitor lines), snapshot JSON and SHA-256 of saved files must be identical to the first configuration; plus a floating-point-environment probe (rates at the extremes of the float range driving the library's only float arithmetic); distinct = distinct workload items",
                    samples=[dict(configurations=names), dict(history_args=hargs), dict(file=os.path.basename(allfiles[0]))], configurations=names,
                    items_compared=dict(compared), child_end_status_all_configs=dict(statuses))
